@@ -118,6 +118,8 @@ def gate_blocks(ctx, n_points):
     for name, params in gdr.ONE:
         for _ in range(n_points):
             vals = [float(rng.uniform(-7, 7)) if rng.random() < 0.8 else float(rng.choice([0.0, math.pi, -math.pi, 2 * math.pi, 1e-9])) for _ in params]
+            if len(vals) >= 2 and rng.random() < 0.35:
+                vals[-1] = -vals[-2] + float(rng.choice([0.0, 2 * math.pi, -2 * math.pi]))      # cancelling phases (how transpilers write rx / ry as u)
             U = unitary(dre._map_qiskit_instr_to_pq(gdr.FakeInstr(name, vals), [0, 1], []), 2)
             ctx.count(("block", name, tuple(vals)), nontrivial=len(params) > 0)
             err = np.abs(U - dr.gate_matrix(name, vals)).max()
@@ -288,15 +290,21 @@ def run(ctx):
                        "two-qubit gates inside if_test blocks are not supported by the encoder and are not generated",
                        "the KLM angles in the code are 4-digit approximations: statistics of circuits with cz/cx are compared to 2e-3"]
     # translator
-    with warnings.catch_warnings():
-        warnings.simplefilter("ignore")
-        gates, cz, cx, meas = gdr.trace()
-        notes = gdr.emit(gates, cz, cx, meas)
-        bad, npts = gdr.self_check(gates, cz, 6 if quick else 60, ctx.seed)
-    ctx.notes["translator"] = {"self_check_points": npts, "self_check_bad": len(bad), **{k: str(v) for k, v in notes.items()}}
-    if bad:
-        ctx.broken.append("translator-self-check:dual_rail_encoding")
-        ctx.notes["translator_bad"] = [str(b)[:200] for b in bad[:3]]
+    try:
+        with warnings.catch_warnings():
+            warnings.simplefilter("ignore")
+            gates, cz, cx, meas = gdr.trace()
+            notes = gdr.emit(gates, cz, cx, meas)
+            bad, npts = gdr.self_check(gates, cz, 6 if quick else 60, ctx.seed)
+        ctx.notes["translator"] = {"self_check_points": npts, "self_check_bad": len(bad), **{k: str(v) for k, v in notes.items()}}
+        if bad:
+            ctx.broken.append("translator-self-check:dual_rail_encoding")
+            ctx.notes["translator_bad"] = [str(b)[:200] for b in bad[:3]]
+    except Exception as e:
+        # the encoder can no longer be executed on symbolic angles (e.g. a new data-dependent branch): the regenerated definitions
+        # are not available, so the theorems no longer speak about today's code — a broken obligation, and the search decides
+        ctx.broken.append(f"translator:dual_rail_encoding cannot be traced symbolically ({type(e).__name__}: {str(e)[:100]})")
+        ctx.notes["translator"] = {"error": f"{type(e).__name__}: {str(e)[:200]}"}
     ctx.prove("PqVerif.Props.C19", THEOREMS, FILES)
     import glob, os, subprocess, sys
     for f in sorted(glob.glob(os.path.join(os.path.dirname(__file__), "..", "..", "..", "corpus", "repro", "c19_*.py"))):
